@@ -736,12 +736,12 @@ func InfixArgsToArray(name string, args []Sexp) (*SexpArray, bool, error) {
 				return nil, false, fmt.Errorf("infixExpand expects (infix []) as its argument; instead we saw '%T'", v.Tail)
 			}
 		}
-		return nil, false, fmt.Errorf("InfixBuilder must receive an SexpArray. Saw: name='%v' / args[0]='%#v'", name, args[0])
+		return nil, false, fmt.Errorf("InfixBuilder must receive an SexpArray. Saw: name='%v' / args[0]='%s'", name, showForErr(args[0]))
 	case *SexpHash:
 		// an empty basic block {} that turned into an empty hash.
 		return nil, true, nil
 	default:
-		return nil, false, fmt.Errorf("InfixBuilder (default) must receive an SexpArray. Saw: name='%v' / args[0]='%#v'", name, args[0])
+		return nil, false, fmt.Errorf("InfixBuilder (default) must receive an SexpArray. Saw: name='%v' / args[0]='%s'", name, showForErr(args[0]))
 	}
 	return arr, false, nil
 }
@@ -1002,7 +1002,7 @@ func (p *Pratt) Expression(env *Zlisp, rbp int) (ret Sexp, err error) {
 			//Q("Expression sees an SexpPair")
 			// leaving curOp nil seems to work just fine here.
 		default:
-			panic(fmt.Errorf("how to handle cnode type = %#v", cnode))
+			panic(fmt.Errorf("how to handle cnode type = %T", cnode))
 		}
 		//Q("curOp = %#v", curOp)
 
@@ -1118,7 +1118,7 @@ func (env *Zlisp) LeftBindingPower(sx Sexp) (int, error) {
 		return 0, nil
 	}
 
-	return 0, fmt.Errorf("LeftBindingPower: unhandled sx :%#v", sx)
+	return 0, fmt.Errorf("LeftBindingPower: unhandled sx :%s", showForErr(sx))
 }
 
 func (p *Pratt) ShowCnodeStack() {
